@@ -127,11 +127,16 @@ class LoggedList(list):
         return self
 
 
-def logged_gen(n, kind, log):
+def logged_gen(n, kind, log, pause=0.0, tail=0.0):
+    """a generator input; `pause`: virtual seconds it takes to produce each element, `tail`: … to find out that it is exhausted"""
     for k in range(n):
+        if pause:
+            sim.time_shim.sleep(pause)
         log.append(('d', k, round(sim.S.now - sim.S.t0, 6)))
         sim.S.rec('draw', k)
         yield elem_of(kind, k)
+    if tail:
+        sim.time_shim.sleep(tail)
 
 
 def dur_of(spec, i):
@@ -714,7 +719,7 @@ def _make_input(op, log):
     if kind == 'range':
         return range(n)
     if kind == 'gen':
-        return logged_gen(n, ek, log)
+        return logged_gen(n, ek, log, op.get('gen_pause', 0.0), op.get('gen_tail', 0.0))
     if kind == 'nd':
         return np.arange(n * 2).reshape(n, 2) * 1.0 + 0.0 if False else np.stack([np.arange(n), np.arange(n) * 2], axis=1)
     raise AssertionError(kind)
